@@ -231,6 +231,96 @@ def auth_matrix(ctx):
 # ------------------------------------------------------------------ (4) transport parameters authenticate the connection IDs and the version
 
 
+
+# ------------------------------------------------------------------ (2b) certificate chain compositions
+
+CHAIN_LEAVES = ["leaf_ed25519.pem", "leaf_ica.pem", "leaf_chain.pem", "leaf_foreign.pem", "leaf_selfsigned.pem"]
+CHAIN_POOL = ["ica.pem", "ica2.pem", "foreign_ca.pem", "leaf_selfsigned.pem", "ca.pem", "leaf_foreign.pem"]
+
+
+def chain_expected(leaf, extras, anchor):
+    """independent oracle: is there a path leaf -> ... -> anchor in which every certificate is signed by the next, using only the certificates the
+    server sent as (untrusted) intermediates?  The trust anchor is the one certificate the client configured."""
+    frontier = [leaf]
+    seen = set()
+    while frontier:
+        c = frontier.pop()
+        if c.fingerprint_key in seen:
+            continue
+        seen.add(c.fingerprint_key)
+        for issuer in [anchor] + extras:
+            try:
+                c.cert.verify_directly_issued_by(issuer.cert)
+            except Exception:
+                continue
+            if not is_ca(issuer.cert):
+                continue  # only a CA certificate (basicConstraints CA:TRUE) can issue
+            if issuer is anchor:
+                return True
+            frontier.append(issuer)
+    return False
+
+
+def is_ca(cert):
+    from cryptography import x509
+
+    try:
+        return bool(cert.extensions.get_extension_for_class(x509.BasicConstraints).value.ca)
+    except x509.ExtensionNotFound:
+        return False
+
+
+class _C:
+    def __init__(self, name, cert):
+        from cryptography.hazmat.primitives import hashes
+
+        self.name = name
+        self.cert = cert
+        self.fingerprint_key = cert.fingerprint(hashes.SHA256())
+
+
+def chain_compositions(ctx, max_extras):
+    import itertools
+    from cryptography.hazmat.primitives.serialization import Encoding
+    from vlib import endpoints as E, tlsbench as B, reftls as L
+
+    load = lambda n: _C(n, E.load_cert(n)[0])
+    key = E.load_key("leaf_ed25519.key")
+    for ca in ("ca.pem", "foreign_ca.pem"):
+        anchor = load(ca)
+        for leaf_name in CHAIN_LEAVES:
+            leaf = load(leaf_name)
+            for k in range(max_extras + 1):
+                for combo in itertools.permutations(CHAIN_POOL, k):
+                    extras = [load(n) for n in combo]
+                    expect = chain_expected(leaf, extras, anchor)
+                    case = {"kind": "chain", "ca": ca, "leaf": leaf_name, "extras": list(combo)}
+                    with E.pinned(("c03-chain", ca, leaf_name, combo)):
+                        c = B.Ctx(True, ca=ca)
+                        s = L.RefServer([x.cert.public_bytes(Encoding.DER) for x in [leaf] + extras], key, alpn=None, transport_parameters=B.TP, rng=E.os.urandom, strict=False)
+                        s.receive_client_hello(c.feed(b"")["INITIAL"])
+                        err = None
+                        try:
+                            c.feed(s.server_hello())
+                            c.feed(s.encrypted_extensions())
+                            c.feed(s.certificate())
+                            c.feed(s.certificate_verify())
+                            c.feed(s.finished())
+                        except Exception as e:
+                            err = e
+                    ctx.case(("chain", ca, leaf_name, combo), nontrivial=bool(combo), classes=["chain:expected-" + ("valid" if expect else "invalid"), "chain:extras-%d" % k])
+                    if c.done() and not expect:
+                        ctx.violation(
+                            "client-completed-with-unauthentic-server",
+                            "the client trusts only %s; the server sent %s followed by %s: no path to the trusted CA exists (certificates the peer sends are not trust anchors) but the client reported handshake completion" % (ca, leaf_name, list(combo)),
+                            case,
+                        )
+                    elif not c.done() and expect:
+                        ctx.violation("client-refused-authentic-server", "the client trusts %s; the server sent %s followed by %s, which contains a valid path: the client did not complete: %r" % (ca, leaf_name, list(combo), err), case)
+                    if ctx.want_sample():
+                        ctx.sample(dict(case, expected_valid=expect))
+
+
 def tp_auth(ctx):
     """An honest TLS handshake from a key-holding QUIC peer whose transport parameters misstate the connection IDs or the
     version: the endpoint must not report HandshakeCompleted."""
@@ -538,6 +628,8 @@ def replay(ctx, case):
         auth_matrix(ctx)
     elif k == "tp":
         tp_auth(ctx)
+    elif k == "chain":
+        chain_compositions(ctx, 2 if len(case["extras"]) <= 2 else len(case["extras"]))
     elif k == "agree":
         agreement_case(ctx, case)
 
@@ -551,6 +643,7 @@ def plan(tier, seed):
             t.append(("alter-%s-%d" % (v["name"], p), {"fn": "alter", "variant": i, "thorough": not q, "part": p, "nparts": parts}))
     t.append(("auth-matrix", {"fn": "auth"}))
     t.append(("tp-auth", {"fn": "tp"}))
+    t.append(("chain-compositions", {"fn": "chains", "max_extras": 2 if q else 6}))
     for s in range(6 if q else 8):
         t.append(("agreement-%d" % s, {"fn": "agree", "examples": 120 if q else 5000, "shard": s}))
     return t
@@ -563,5 +656,7 @@ def run_task(ctx, name, fn, **kw):
         auth_matrix(ctx)
     elif fn == "tp":
         tp_auth(ctx)
+    elif fn == "chains":
+        chain_compositions(ctx, kw["max_extras"])
     else:
         agreement_task(ctx, kw["examples"], kw["shard"])
